@@ -280,7 +280,10 @@ pub fn api_bodies(
             0, 1, usize::MAX, usize::MAX / 2, (isize::MAX as usize) / 8,
         ];
         for rows in extremes {
-            for offset in [0usize, 1, usize::MAX] {
+            // Offsets inside, at and (far) beyond the end of the history.
+            for offset in [
+                0usize, 1, 50, 1000, 1 << 32, usize::MAX / 2, usize::MAX
+            ] {
                 for (after, before) in [
                     (None, None), (Some(i64::MAX), Some(i64::MIN)),
                     (Some(i64::MIN), Some(i64::MAX)),
